@@ -47,8 +47,8 @@ extern int cvp_rowoff[__CPROVER_constant_infinity_uint];
 extern int cvp_tri[__CPROVER_constant_infinity_uint];
 extern int cvp_tab_d, cvp_tab_b;
 #define CVP_TAB_FOR(d, b) ((d) == cvp_tab_d && (b) == cvp_tab_b)
-#define CVP_OFF(d, b, r) (cvp_rowoff[r])
-#define CVP_TRI(i) (cvp_tri[i])
+#define CVP_OFF(d, b, r) ((long)cvp_rowoff[r])   /* long: the lemma statements add to it; no int wrap-around in spec text */
+#define CVP_TRI(i) ((long)cvp_tri[i])
 #else
 #define CVP_TAB_FOR(d, b) (0 == 0)
 #define CVP_OFF(d, b, r) CVP_OFF_CLOSED(d, b, r)
